@@ -23,6 +23,14 @@ CLAIMED = {
         "DESIGN.md §4 C20",
         "exploration",
     ),
+    "C15": (
+        "Hypothesis-generated SET/UNSET/use histories over colliding names vs per-connection dict model",
+        "Generated histories over two connections x two cursors with names that are prefixes/case variants of each other and values "
+        "over regex/SQL-special characters, compared step by step with a dict-per-connection model; exploration.",
+        "Values are read back through SELECT $name; UNSET only of defined names; $-in-literal shapes are generated but listed as a known finding.",
+        "DESIGN.md §4 C15",
+        "exploration",
+    ),
 }
 
 NOT_YET = {}
